@@ -40,7 +40,7 @@ PROPS = {
     "C09": dict(engine=SYS, variants=["A", "C"], quick=200, thorough=4000),
     "C10": dict(engine=SYS, variants=["A", "C"], quick=360, thorough=9000),
     "C11": dict(engine=SYS, variants=["A", "B"], quick=360, thorough=9000),
-    "C12": dict(engine=SYS, variants=["A", "B"], quick=360, thorough=9000),
+    "C12": dict(engine=SYS, variants=["A", "C"], quick=360, thorough=9000),
     "C13": dict(engine=SYS, variants=["A", "B"], quick=360, thorough=9000),
     "C14": dict(engine=SYS, variants=["A", "C"], quick=360, thorough=9000),
     "C15": dict(engine=SYS, variants=["A", "B"], quick=360, thorough=9000),
